@@ -8,6 +8,7 @@ within tolerance of a KKT-certified optimum; unsupported combinations raise;
 ledger over y, z and captured arrays after every update; twin runs under a
 different RNG history and under absorbed stream faults."""
 import copy
+import random
 
 import numpy as np
 
@@ -269,6 +270,16 @@ class LLSWorld(World):
         Ad = dense_A(A)
         m = Ad.shape[0]
         y = np.round(common.randn(g, (m,), k["complex"]), 4)
+        # observations stored as integers (counts, quantised images).  Own generators for the
+        # newer knobs, so the plans of all other sessions stay what they were.
+        r_int = random.Random("lls-yint:%d" % seed)
+        k["y_int"] = None
+        if not k["complex"] and r_int.random() < 0.07:
+            k["y_int"] = r_int.choice(["uint8", "uint8", "uint16", "int16", "int64"])
+            y = np.round(3 * y)
+            if k["y_int"].startswith("u"):
+                y = np.abs(y)
+            y = y.astype(k["y_int"])
         plan = {"world": self.name, "seed": seed, "knobs": k, "A": A, "n": n, "m": m, "y": codec.enc(y)}
         plan["lam_g"] = round(10 ** rng.uniform(-1.5, 0.3), 3)
         plan["lo"], plan["hi"] = -0.3, 0.6
@@ -288,7 +299,14 @@ class LLSWorld(World):
             if not k["complex"]:
                 Gm = np.real(Gm)
             plan["G"] = {"kind": "dense", "mat": codec.enc(np.round(Gm, 4))}
-            if len(A["ishape"]) == 1 or A["ishape"][-1] != 1:
+            form = random.Random("lls-gform:%d" % seed).choice(["matmul", "matmul", "matmul", "identity", "flip", "reshape"])
+            if form != "matmul":
+                # an invertible G whose Linop hands back its argument or a view of it
+                ish_ = list(A["ishape"])
+                eye = np.eye(n).reshape([n] + ish_)
+                pm = (eye[:, ::-1] if form == "flip" else eye).reshape(n, n).T
+                plan["G"] = {"kind": "dense", "mat": codec.enc(pm), "form": form}
+            elif len(A["ishape"]) == 1 or A["ishape"][-1] != 1:
                 # MatMul needs a column: only usable when x is [n, 1]
                 if A["kind"] in ("identity", "reshape"):
                     A["ishape"] = [n, 1]
@@ -414,7 +432,10 @@ class LLSWorld(World):
             big = np.zeros(a.shape[:-1] + (a.shape[-1] * 2,), dtype=a.dtype)
             big[..., ::2] = a
             return big[..., ::2]
-        y = as_view(codec.dec(plan["y"]).astype(dt).reshape(Aop.oshape))
+        y = codec.dec(plan["y"])
+        if not k.get("y_int"):
+            y = y.astype(dt)
+        y = as_view(y.reshape(Aop.oshape))
         ledger.own("y", y)
         kw = {}
         if plan.get("z") is not None:
@@ -428,9 +449,17 @@ class LLSWorld(World):
         Gop = None
         if plan.get("G"):
             if plan["G"]["kind"] == "dense":
-                gm = codec.dec(plan["G"]["mat"]).astype(dt)
-                ledger.own("G.mat", gm)
-                Gop = L.MatMul(ish, gm)
+                form = plan["G"].get("form", "matmul")
+                if form == "identity":
+                    Gop = L.Identity(ish)
+                elif form == "flip":
+                    Gop = L.Flip(ish, axes=[0])
+                elif form == "reshape":
+                    Gop = L.Reshape(ish, ish)
+                else:
+                    gm = codec.dec(plan["G"]["mat"]).astype(dt)
+                    ledger.own("G.mat", gm)
+                    Gop = L.MatMul(ish, gm)
             else:
                 Gop = L.FiniteDifference(ish, axes=[0])
             kw["G"] = Gop
@@ -467,11 +496,13 @@ class LLSWorld(World):
         clock = SimClock(clock_spec)
         stream = SimStream(stream_faults)
         out = {"x": None, "raised": None, "updates": 0, "x_caller": None, "injected": None}
+        out["fstate"] = None
         np.random.seed(rng_seed)
         for _ in range(plan["rng"]["burn"]):
             np.random.standard_normal(3)
         ofaults = [f for f in plan["faults"] if f["seam"] == "operator"] if judge_ledger else []
         fstate = {"calls": 0, "at": ofaults[0]["at_call"] if ofaults else -1, "armed": bool(ofaults), "fired": 0}
+        out["fstate"] = fstate
         with Seams(clock, stream):
             Aop, y, kw, x_caller, Gop = self._build(plan, ledger)
             if ofaults:
@@ -667,6 +698,14 @@ class LLSWorld(World):
                 res.trace.append({"a": "RUN", "raised": type(r1["raised"]).__name__})
                 return
             # returned normally: judged against F* like any other run (below)
+        elif r1["raised"] is not None and k.get("y_int"):
+            # "combinations a solver cannot handle raise an error": integer observations are
+            # either rejected or solved, never silently reinterpreted
+            stats["probes.integer_y_rejected"] += 1
+            res.nontrivial = True
+            res.fingerprint = codec.json_digest(["int_y_rejected", k["solver"], gk, gkG, plan["A"]["kind"], k["y_int"]])
+            res.trace.append({"a": "RUN", "raised": type(r1["raised"]).__name__})
+            return
         elif r1["raised"] is not None:
             e = r1["raised"]
             self._flag(res, "library_raised", site, 0,
@@ -693,14 +732,33 @@ class LLSWorld(World):
             raise Violation("result_not_finite", site, 0, {})
         tol = 1e-6 * (F0 - Fs + 1.0)
         infeas = 0.0
-        if gk == "box":
-            gx = np.real(Gd @ xv) if Gd is not None else np.real(xv)
-            infeas = float(np.max(np.maximum(gx - hi, 0) + np.maximum(lo - gx, 0)))
-            if infeas > 1e-5 * (1 + float(np.max(np.abs(xs)))):
-                self._flag(res, "constraint_violated", site, 0, {"infeasibility": infeas, "A": plan["A"]["kind"], "G": gkG})
         gap = F(xv) - Fs
-        Lg = float(np.linalg.norm(Ad.conj().T @ (Ad @ xv - y))) + lam * float(np.linalg.norm(xv)) + 1.0
-        gap_eff = gap + Lg * infeas  # an infeasible point may undercut F*
+        # local slope of the smooth part at the returned point (the l2 term is lamda/2 |x - z|^2)
+        Lg = (float(np.linalg.norm(Ad.conj().T @ (Ad @ xv - y)))
+              + lam * float(np.linalg.norm(xv - (z if z is not None else 0))) + 1.0)
+        gap_eff = gap
+        if gk == "box":
+            def _infeas(v):
+                g_ = np.real(Gd @ v) if Gd is not None else np.real(v)
+                return float(np.max(np.maximum(g_ - hi, 0) + np.maximum(lo - g_, 0)))
+            infeas = _infeas(xv)
+            # ADMM/PDHG return the unprojected primal variable: its distance to the box shrinks with
+            # the iteration budget like the objective gap does.  Out of budget and still closing in
+            # on the box is slow, not wrong; a gross distance is wrong whatever the trend.
+            scale_ = 1 + float(np.max(np.abs(xs)))
+            closing = False
+            if r1.get("x_mid") is not None and r1["updates"] >= BUDGET.get(eff, 0):
+                closing = infeas < 0.7 * _infeas(np.asarray(r1["x_mid"]).astype(np.complex128).ravel())
+            if infeas > 1e-3 * scale_ or (infeas > 1e-5 * scale_ and not closing):
+                self._flag(res, "constraint_violated", site, 0, {"infeasibility": infeas, "A": plan["A"]["kind"], "G": gkG})
+            # an infeasible point may undercut F*: the gap is judged at the nearby feasible point
+            # G^-1 clip(G x) (box problems are real with G absent or invertible)
+            def _feasible_gap(v):
+                v = np.asarray(v).astype(np.complex128).ravel()
+                g_ = np.clip(np.real(Gd @ v) if Gd is not None else np.real(v), lo, hi)
+                vp = np.linalg.solve(Gd, g_.astype(np.complex128)) if Gd is not None else g_.astype(np.complex128)
+                return max(F(v) - Fs, F(vp) - Fs)
+            gap_eff = _feasible_gap(xv)
         res.note_max("objective_gap_over_tol." + str(eff), gap / tol)
         still_converging = False
         if gap_eff > tol and r1.get("x_mid") is not None and r1["updates"] >= BUDGET.get(eff, 0):
@@ -710,6 +768,11 @@ class LLSWorld(World):
             gap_mid = F(r1["x_mid"]) - Fs
             if np.isfinite(gap_mid) and gap_mid > 0 and gap < 0.7 * gap_mid:
                 still_converging = True
+            elif gk == "box":
+                # (an iterate just outside the box has a negative raw gap: compare like with like)
+                gem = _feasible_gap(r1["x_mid"])
+                still_converging = bool(np.isfinite(gem) and gem > 0 and gap_eff < 0.7 * gem)
+            if still_converging:
                 stats["probes.budget_exhausted_still_converging"] += 1
                 res.note_max("unjudged_gap_over_tol." + str(eff), gap / tol)
         if still_converging:
@@ -743,7 +806,11 @@ class LLSWorld(World):
                     slow2 = bool(np.isfinite(gm2) and gm2 > 0 and gap2 < 0.7 * gm2)
                 if gap2 > tol and not slow2 and not still_converging:
                     self._flag(res, "answer_depends_on_rng_history", site, 0, {"gap": gap2, "tol": tol})
-        elif plan["twin"] == "stream" and (sfaults or cspec["jumps"]) and not r1.get("resumed"):
+        elif (plan["twin"] == "stream" and (sfaults or cspec["jumps"]) and not r1.get("resumed")
+              and not (r1.get("fstate") or {}).get("fired")):
+            # (an operator fault that fired anywhere in the first run - also inside the earlier
+            # app sharing the operator, or a caller poll before run() - is not an absorbed fault:
+            # the twin, which has no operator fault, legitimately takes a different path)
             r2 = self._one_run(plan, res, plan["rng"]["seed"], [], plan["clock"], judge_ledger=False)
             stats["probes.twin_fault_free"] += 1
             if r2["x"] is not None and codec.bytes_digest(r2["x"]) != codec.bytes_digest(xr):
@@ -753,7 +820,7 @@ class LLSWorld(World):
             k["solver"], eff, plan["A"]["kind"], gk, gkG, lam > 0, z is not None, k["xgiven"], k["P"], k["steps_given"],
             k["accelerate"], k["rho"], k["complex"], k["show_pbar"], plan["twin"], n, bool(plan.get("prev")),
             bool(k.get("z_scalar")), bool(k.get("save_obj")), bool(k.get("views")), k.get("Pkind") if k["P"] else None,
-            "".join(plan.get("pre", [])),
+            "".join(plan.get("pre", [])), k.get("y_int"), (plan.get("G") or {}).get("form"),
             [(f["seam"], f.get("kind", "jump")) for f in plan["faults"]]])
 
     # ---------------------------------------------------------------- shrink
